@@ -36,9 +36,16 @@ def load_units():
             continue
         spec = importlib.util.spec_from_file_location('unit_' + name, p)
         m = importlib.util.module_from_spec(spec)
-        spec.loader.exec_module(m)
+        try:
+            spec.loader.exec_module(m)
+        except Exception as e:   # a unit that cannot even be set up (it reads /repo while loading) is undecided, never an alarm
+            LOAD_ERRORS[name] = '%s: %s' % (type(e).__name__, e)
+            continue
         units[name] = m
     return units
+
+
+LOAD_ERRORS = {}
 
 
 def unit_props(udef):
@@ -131,6 +138,8 @@ def run_property(prop, tier, seed):
             else:
                 runs[(n, variant)] = res
     undecided = list(errors)
+    for (n_, msg_) in sorted(LOAD_ERRORS.items()):
+        undecided.append('unit %s could not be loaded (%s): every property it may serve is undecided' % (n_, msg_[:300]))
     violations = []
     known_hits = []
     notes = []
